@@ -263,14 +263,11 @@ func main() {
 	}
 
 	feed := make(chan chunk)
-	cut := false
 
 	go func() {
 		for _, c := range chunks {
 			if time.Now().After(deadline) {
-				cut = true
-
-				break
+				break // budget: the blocks not handed out completely are reported as partial
 			}
 
 			g.mu.Lock()
@@ -343,8 +340,6 @@ func main() {
 
 		perPhase[ph] = pp
 	}
-
-	_ = cut
 
 	// report: cheapest instance of every signature first in its class
 	keys := make([]string, 0, len(g.viols))
